@@ -22,6 +22,7 @@ ASSUMPTIONS = ['Model/Signomial.v is hand written; tied by correspondence only',
 HEADER = ('From Coq Require Import List Bool Arith ZArith QArith.\n'
           'From SageVerif Require Import Model.Signomial Model.SigExpr Base.Corr.')
 GRID = 10 ** 7
+USES_TRANSLATOR = True
 
 
 def sigmod():
@@ -426,6 +427,20 @@ def run(ctx):
             ctx.problem('correspondence', 'suite eq: model and implementation disagree on %s (impl %s); oracle: %s'
                         % (eqcases[idx][0], eqcases[idx][2], why), inputs={'suite': 'eq', 'input': eqcases[idx][0], 'property_failure': why},
                         failing_input_found=bool(why))
+    # the same pairs through Signomial.__eq__ GENERATED from signomials.py (Gen/GenSigEq.v)
+    gh = HEADER.replace('Model.SigExpr Base.Corr.', 'Model.SigExpr Gen.GenSigEq Base.Corr.')
+    mism, err = vlib.run_suite_in_coq(ctx.pid, 'eq_generated', gh,
+                                      "fun x => let '(p, n, a, b) := x in match eval p n a, eval p n b with "
+                                      "Some f, Some g => (gen_sig_eq f g, gen_sig_eq g f) | _, _ => (false, false) end",
+                                      'pair_eqb Bool.eqb Bool.eqb', 'bool * nat * sexp * sexp', 'bool * bool',
+                                      [(c[1], c[2]) for c in eqcases], shard=150)
+    ctx.suites['eq_generated'] = {'cases': len(eqcases), 'mismatches': None if mism is None else len(mism)}
+    if err:
+        ctx.problem('correspondence', 'suite eq_generated: ' + err)
+    else:
+        for idx in mism[:2]:
+            ctx.problem('correspondence', 'suite eq_generated: the __eq__ generated from signomials.py and the implementation disagree on %s (impl %s)'
+                        % (eqcases[idx][0], eqcases[idx][2]), inputs={'suite': 'eq', 'input': eqcases[idx][0]}, failing_input_found=False)
     why, inp = oracle_operands(ctx.rng, kept, ctx.n(80, 800))
     ctx.suites['operands_unchanged'] = {'cases': min(len(kept), ctx.n(80, 800)), 'failure': why}
     ctx.evaluations += min(len(kept), ctx.n(80, 800))
